@@ -2,6 +2,8 @@ package rules
 
 import (
 	"go/types"
+	"regexp"
+	"sort"
 	"strings"
 
 	"golang.org/x/tools/go/ssa"
@@ -14,7 +16,9 @@ func init() { register("C45", c45) }
 func c45(r *core.Run) {
 	r.Explanation = "Decided clauses: (R1) primitive type tables: interpreter ConvertSemaToPrimitiveStaticType and PrimitiveStaticType.SemaType are mutually inverse with agreeing names, and runtime.ExportMeteredType maps every sema.XType to cadence.XType of the same name; " +
 		"(R2) single formatter: the checker, static and external representations of optional, array, dictionary, reference, intersection, capability and entitlement-set types all build their type IDs through the shared sema.Format*TypeID helpers " +
-		"(pinned census of the callers of each helper); (R3) the set-like helpers FormatIntersectionTypeID and FormatEntitlementSetTypeID sort their members before joining them on every path."
+		"(pinned census of the callers of each helper); (R3) the set-like helpers FormatIntersectionTypeID and FormatEntitlementSetTypeID sort their members before joining them on every path; " +
+		"(R4) every conversion function between the three representations still reads every field of the source representation that it read on the reviewed tree (pinned field census, helpers followed); " +
+		"(R5) no error of a type lookup inside the conversion functions is dropped or swallowed beyond the pinned baseline."
 	r.NotDecided = "equality of IDs over all types and all conversion paths at run time."
 	w := r.W
 	ip := w.Pkg("interpreter")
@@ -81,4 +85,136 @@ func c45(r *core.Run) {
 			"the set-like type ID is built without sorting its members: the same set written in a different order gets a different ID")
 	}
 	r.Floor("R3.sorted", 2)
+
+	// R4 conversions carry every field they carried on the pinned tree (FLD engine, pinned census)
+	c45Fields(r)
+
+	// R5 error discipline of the conversion functions (shared ERR rule): a type that fails to resolve must not silently vanish
+	// from a converted type (an entitlement dropped from a set, a nil element type)
+	errDiscipline(r, "R5.errdrop", "type conversion functions", isTypeConversionFn, 8)
+}
+
+var reConvFn = regexp.MustCompile(`^(?i:export|import).*(Type|Authorization|Types)$`)
+
+func isTypeConversionFn(fn *ssa.Function) bool {
+	if fn.Pkg == nil {
+		return false
+	}
+	switch fn.Pkg.Pkg.Path() {
+	case mod + "/interpreter":
+		n := fn.Name()
+		return strings.HasPrefix(n, "Convert") && fn.Signature.Recv() == nil && (strings.Contains(n, "Type") || strings.Contains(n, "Authorization") || strings.Contains(n, "Access"))
+	case mod + "/runtime":
+		return reConvFn.MatchString(fn.Name()) && fn.Signature.Recv() == nil
+	}
+	return false
+}
+
+// c45Fields: for every conversion function, the set of fields of checker / static / external type representations it reads
+// (directly or through same-package helpers, depth 2) must include the set pinned for the reviewed tree: a conversion that
+// stops reading a field (the kind of an entitlement set, the size of a constant-sized array, the authorization of a reference)
+// replaces it by a constant and yields a different type, with a different ID, on the way back.
+func c45Fields(r *core.Run) {
+	const rule = "R4.fields"
+	w := r.W
+	typePkgs := map[string]bool{mod + "/sema": true, mod + "/interpreter": true, mod: true}
+	direct := map[*ssa.Function]map[string]bool{}
+	readsOf := func(fn *ssa.Function) map[string]bool {
+		if m, ok := direct[fn]; ok {
+			return m
+		}
+		m := map[string]bool{}
+		direct[fn] = m
+		note := func(t types.Type, idx int) {
+			if p, ok := t.Underlying().(*types.Pointer); ok {
+				t = p.Elem()
+			}
+			nt, ok := t.(*types.Named)
+			if !ok || nt.Obj().Pkg() == nil || !typePkgs[nt.Obj().Pkg().Path()] {
+				return
+			}
+			if !strings.HasSuffix(nt.Obj().Name(), "Type") && !strings.HasSuffix(nt.Obj().Name(), "Access") && !strings.HasSuffix(nt.Obj().Name(), "Authorization") {
+				return
+			}
+			st, ok := nt.Underlying().(*types.Struct)
+			if !ok || idx >= st.NumFields() {
+				return
+			}
+			m[nt.Obj().Pkg().Name()+"."+nt.Obj().Name()+"."+st.Field(idx).Name()] = true
+		}
+		core.Instrs(fn, true, func(in ssa.Instruction) {
+			switch x := in.(type) {
+			case *ssa.FieldAddr:
+				// reads only: the address must be loaded, not stored to
+				if refs := x.Referrers(); refs != nil {
+					for _, ref := range *refs {
+						if st, ok := ref.(*ssa.Store); ok && st.Addr == x {
+							return
+						}
+					}
+				}
+				note(x.X.Type(), x.Field)
+			case *ssa.Field:
+				note(x.X.Type(), x.Field)
+			}
+		})
+		return m
+	}
+	got := map[string][]string{}
+	for _, fn := range w.SrcFuncs() {
+		if fn.Parent() != nil || !isTypeConversionFn(fn) {
+			continue
+		}
+		all := map[string]bool{}
+		seen := map[*ssa.Function]bool{}
+		var visit func(f *ssa.Function, d int)
+		visit = func(f *ssa.Function, d int) {
+			if f == nil || seen[f] || len(f.Blocks) == 0 {
+				return
+			}
+			seen[f] = true
+			for k := range readsOf(f) {
+				all[k] = true
+			}
+			if d >= 2 {
+				return
+			}
+			for _, c := range core.Calls(f, true) {
+				if sf := core.StaticFn(c); sf != nil && sf.Pkg == fn.Pkg && !isTypeConversionFn(sf) {
+					visit(sf, d+1)
+				}
+			}
+		}
+		visit(fn, 0)
+		if len(all) > 0 {
+			got[core.SSAKey(fn)] = sortedKeys(all)
+		}
+	}
+	// keyed by package and field (not by function): conversions may be merged, split or inlined freely
+	union := map[string][]string{}
+	for fk, fields := range got {
+		pkg := fk[:strings.Index(fk, ".")]
+		for _, f := range fields {
+			k := pkg + " conversions read " + f
+			union[k] = append(union[k], fk)
+		}
+	}
+	if genMode() {
+		keys := map[string]int{}
+		for k, v := range union {
+			keys[k] = len(v)
+		}
+		genJSON(r, "c45_conversion_fields", keys)
+		return
+	}
+	var pinned map[string]int
+	if !r.Table("c45_conversion_fields", &pinned) {
+		return
+	}
+	for _, k := range sortedKeys(pinned) {
+		sort.Strings(union[k])
+		r.Check(len(union[k]) > 0, rule, k, 0, "read by "+strings.Join(union[k], ", "),
+			"no conversion function of the package reads this field of the source representation any more: the converted type carries a constant instead and is not equal to the original")
+	}
+	r.Floor(rule, 40)
 }
